@@ -1209,6 +1209,8 @@ fn corpus_cases() -> Vec<Vec<String>> {
         s(&["new 1 10", "req2 0 list | add", "ans 0 0 0 0 ok"]),
         // LoadState of a corrupt file: entries read so far are scattered, the client is told the failure, the task id is spent
         s(&["new 1 10", "req 0 loadcorrupt 2", "req 1 add", "ans 0 0 1 0 ok", "adv 12"]),
+        // … and an answer to one of the ids left in flight by the cancelled task is dropped
+        s(&["new 1 10", "req 0 loadcorrupt 2", "ans 0 0 0 1 ok", "ans 0 0 0 2 fail", "req 1 list", "adv 12"]),
         // ReloadConfiguration: 5 messages, one refused by the worker; no deadline
         s(&["new 1 10", "req 0 reload 5", "ans 0 0 0 0 ok", "ans 0 0 0 1 fail", "ans 0 0 0 2 ok", "ans 0 0 0 3 ok", "adv 12", "ans 0 0 0 4 ok"]),
         // ReloadConfiguration of an unloadable path kills the main process (open: reload-bad-path-crashes-main)
